@@ -297,6 +297,9 @@ func compareView(src gozxing.LuminanceSource, m *model, where string) error {
 		case 0:
 			row, err = src.GetRow(y, nil)
 		case 1:
+			for i := range big {
+				big[i] = 0xA5 // the caller's buffer arrives dirty
+			}
 			row, err = src.GetRow(y, big)
 		default:
 			row, err = src.GetRow(y, make([]byte, m.w/2))
@@ -476,7 +479,15 @@ func checkBinarizer(c Case, src gozxing.LuminanceSource, m *model) error {
 				has255 = true
 			}
 		}
-		row, err := bb.GetBlackRow(y, nil)
+		var reuse *gozxing.BitArray
+		if y%2 == 1 {
+			// a caller-supplied row that still holds another row's bits
+			reuse = gozxing.NewBitArray(m.w + (y%3)*29)
+			for i := 0; i < reuse.GetSize(); i++ {
+				reuse.Set(i)
+			}
+		}
+		row, err := bb.GetBlackRow(y, reuse)
 		if !(has0 && has255) && err != nil {
 			// a single-colour row has no contrast: rejecting it is allowed
 			if !isNotFound(err) {
